@@ -47,6 +47,11 @@ meta={'property':am.get('property') or pid,'also':am.get('also'),'summary':am.ge
       'confirmed':{'applies':applies=='yes','existing_tests':tests,'demo_exit_with_patch':int(dm),'demo_exit_clean':int(dc)},
       'ran':'tools/eval_seeded.sh: patch applied to a scratch copy of /repo (never to /repo), pinned pytest suite, demo on patched and clean copy, then the listed checks with VERIF_REPO=<scratch>',
       'checks':json.loads(res)}
+for k in ('verdict','note'):
+    try:
+        old=json.load(open(os.path.join(d,'meta.json')))
+        if old.get(k): meta[k]=old[k]
+    except Exception: pass
 json.dump(meta,open(os.path.join(d,'meta.json'),'w'),indent=1)
 PY
 rm -f $D/agent_meta.json
